@@ -192,6 +192,7 @@ def corr(ctx):
         for v in vals:
             cases.append(("ctor", (f, v), "\t".join(["ctor", imp, enc_kwargs({f: v})])))
             cases.append(("copy", (f, v), "\t".join(["copy", imp, enc_kwargs(BASE_KW), enc_kwargs({f: v})])))
+            cases.append(("shares", (f, v), "\t".join(["shares", imp, enc_kwargs(BASE_KW), enc_kwargs({f: v})])))
             if True:
                 cases.append(("merge", ({"myst": {f: v}},), "\t".join(["merge", imp, enc_kwargs(BASE_KW), V.enc_jv({"myst": {f: v}}), "0"])))
     for _ in range(ctx.budget(1500, 30000, 30000)):
@@ -263,6 +264,21 @@ def corr(ctx):
                 ctx.nontriv((k, f, repr(v)))
             if r != m:
                 _dis(ctx, k, {"kind": "value", "field": f, "value": ser(v)}, r, m, f)
+        elif k == "shares":
+            f, v = payload
+            try:
+                b0 = MdParserConfig(**cp.deepcopy(BASE_KW))
+                r = ("ok", shared_containers(b0, b0.copy(**{f: cp.deepcopy(v)}))[0])
+            except (TypeError, ValueError) as e:
+                r = ("error", type(e).__name__)
+            if o.startswith("!"):
+                m = ("error", o[1:])
+            else:
+                body = o[3:]
+                m = ("ok", sorted("".join(chr(int(x)) for x in t.split(",")) for t in body.split(",,") if t) if False else
+                     sorted(_dec_names(body)))
+            if r != m:
+                _dis(ctx, "containers shared between a config and its copy", {"kind": "value", "field": f, "value": ser(v)}, r, m, f)
         elif k == "ctor2":
             r = impl_result(lambda: MdParserConfig(**cp.deepcopy(payload)))
             m = dec_cfg(o)
@@ -304,6 +320,11 @@ def corr(ctx):
             if r != m:
                 _dis(ctx, "sphinx create_myst_config", {"kind": "sphinxconf", "conf": ser(payload)}, r, m)
     ctx.sample({"corr_request": lines[len(lines) // 2][:300]})
+
+
+def _dec_names(body):
+    """'a,b,c;d,e' style is ambiguous with code points: the driver separates names with ';'"""
+    return ["".join(chr(int(x)) for x in t.split(",")) for t in body.split(";") if t]
 
 
 def _dis(ctx, what, case, r, m, field=None):
@@ -395,6 +416,41 @@ def jtype(v):
 
 # ------------------------------------------------------------------ direct oracle: one (field, value)
 
+def _containers(v, path, out):
+    """every mutable container reachable from v, with the path to it"""
+    if isinstance(v, (set, dict, list)):
+        out.append((path, v))
+    if isinstance(v, dict):
+        for k, x in v.items():
+            _containers(x, path + "[%r]" % (k,), out)
+    elif isinstance(v, (list, tuple)):
+        for i, x in enumerate(v):
+            _containers(x, path + "[%d]" % i, out)
+
+
+def shared_containers(base, new):
+    """(fields whose own container object is shared, all shared paths incl. nested ones)"""
+    top, nested = [], []
+    for k in base.__dict__:
+        a, b = [], []
+        _containers(getattr(base, k), k, a)
+        _containers(getattr(new, k), k, b)
+        ids = {id(x): p for p, x in a}
+        for p, x in b:
+            if id(x) in ids:
+                nested.append(p)
+                if p == k:
+                    top.append(k)
+    return sorted(top), sorted(nested)
+
+
+def written_fields():
+    """fields whose container some code of the package mutates in place (regenerated by gen/c13_config.py)"""
+    from gen import c13_config as G
+    from lib import common
+    return sorted({w["field"] for w in G.config_writes(common.REPO) if w["kind"] == "inplace"})
+
+
 def _snapshot(cfg):
     return {k: (id(x), V.canon(x)) for k, x in cfg.__dict__.items()}
 
@@ -404,6 +460,15 @@ def _base_cfg():
     import copy as cp
     from myst_parser.config.main import MdParserConfig
     return MdParserConfig(**cp.deepcopy(BASE_KW))
+
+
+_WRITTEN_CACHE = []
+
+
+def _WRITTEN():
+    if not _WRITTEN_CACHE:
+        _WRITTEN_CACHE.append(written_fields())
+    return _WRITTEN_CACHE[0]
 
 
 def check_value(ctx, case):
@@ -464,6 +529,19 @@ def check_value(ctx, case):
     except Exception as e:
         bad(f"exception:{type(e).__name__}:merge_file_level:{f}", f"merge_file_level with myst.{f}={v!r} raised {e!r}")
         r3 = None
+    # object identity: a container that the package mutates in place at run time must never be shared between
+    # the global config and a copy / per-document config (nested containers included)
+    for how, newc in (("copy", c2 if r2[0] == "ok" else None), ("merge_file_level", c3 if r3 is not None else None)):
+        if newc is None:
+            continue
+        top, nested = shared_containers(base, newc)
+        for wf in _WRITTEN():
+            hit = [p for p in nested if p == wf or p.startswith(wf + "[")]
+            if hit:
+                bad(f"shares-container:{wf}:{how}", f"after {how} (myst.{f}={v!r}) the new config shares {hit} with the global "
+                    f"config, and the package mutates {wf} in place at run time", [], hit)
+        for p in top:
+            ctx.count("observed-shared-container:" + p)
     if _snapshot(base) != snap:
         bad(f"global-modified:{f}", f"the global config object changed while merging front matter myst.{f}={v!r}",
             {k: x[1] for k, x in snap.items()}, {k: x[1] for k, x in _snapshot(base).items()})
@@ -769,8 +847,77 @@ def check_kwargs(ctx, case, sphinx=False):
     return True
 
 
+# documents that exercise every place of the package that writes to the parsing configuration at run time
+# (regenerated list: gen/c13_config.config_writes); a writer the table does not know breaks the tie
+WRITER_SNIPPETS = {
+    ("myst_parser/sphinx_ext/directives.py", "run", "enable_extensions"):
+        "```{figure-md} fig-target\n<img src=\"fish.png\" alt=\"fishy\" width=\"200px\">\n\nThe caption\n```\n",
+}
+RAW_IMG = "# Document B\n\n<img src=\"fish.png\" alt=\"raw html, not an image node\">\n\nTerm\n: Definition\n"
+LEAK_FRONTMATTERS = ["---\nmyst:\n  title_to_header: false\n---\n", "---\nmyst: {}\ntitle: t\n---\n",
+                     "---\nmyst:\n  enable_extensions: [deflist]\n---\n", "---\nmyst:\n  html_meta:\n    a: b\n---\n", ""]
+
+
+def check_leak(ctx, case):
+    """Sphinx: documents (with / without front matter) that use a directive which writes to md_config; afterwards the
+    global config must be what conf.py said, and a later document must be parsed exactly as when it is built alone."""
+    from lib.impl import SphinxProject
+    from myst_parser.config.main import MdParserConfig
+    conf_kw = case["conf"]
+    conf = "".join("myst_%s = %r\n" % (k, v) for k, v in conf_kw.items())
+    a = case["frontmatter"] + "# Document A\n\n" + case["snippet"]
+    idx = "# Index\n\n```{toctree}\na\nb\n```\n"
+    try:
+        both = SphinxProject({"index.md": idx, "a.md": a, "b.md": RAW_IMG}, conf=conf).build()
+        alone = SphinxProject({"index.md": "# Index\n\n```{toctree}\nb\n```\n", "b.md": RAW_IMG}, conf=conf).build()
+    except Exception as e:
+        ctx.fail(f"exception:{type(e).__name__}:sphinx-leak", case, f"Sphinx build raised {e!r}")
+        return False
+    ok = True
+    want = V.canon_cfg(MdParserConfig(**conf_kw))
+    got = V.canon_cfg(both["app"].env.myst_config)
+    if got != want:
+        d = sorted(k for k in got if got[k] != want[k])
+        ctx.fail("global-modified:sphinx:" + ",".join(d), case, "env.myst_config after the build differs from the configured values",
+                 {k: want[k] for k in d}, {k: got[k] for k in d})
+        ok = False
+    b1 = both["doctrees"]["b"].pformat().replace(both["src"], "<src>")
+    b2 = alone["doctrees"]["b"].pformat().replace(alone["src"], "<src>")
+    if b1 != b2:
+        import difflib
+        ctx.fail("config-leak:sphinx:later-document", case, "a document is parsed differently after another document that "
+                 "uses a config-writing directive", None,
+                 "\n".join(list(difflib.unified_diff(b2.splitlines(), b1.splitlines(), "alone", "after a.md", lineterm="", n=1))[:30]))
+        ok = False
+    return ok
+
+
+def check_docutils_settings_untouched(ctx, case):
+    """docutils: the mutable setting objects handed to the parser are unchanged by a parse with front matter"""
+    import copy as cp
+    from lib.impl import publish
+    st = {"myst_" + k: cp.deepcopy(v) for k, v in case["settings"].items()}
+    before = {k: V.canon(v) for k, v in st.items()}
+    try:
+        publish(case["text"], st)
+    except Exception as e:
+        ctx.fail(f"exception:{type(e).__name__}:docutils-settings", case, f"parse raised {e!r}")
+        return False
+    after = {k: V.canon(v) for k, v in st.items()}
+    if before != after:
+        d = sorted(k for k in before if before[k] != after[k])
+        ctx.fail("global-modified:docutils-settings:" + ",".join(d), case, "docutils settings objects were modified by the parse",
+                 {k: before[k] for k in d}, {k: after[k] for k in d})
+        return False
+    return True
+
+
 def check_case(ctx, case):
     k = case["kind"]
+    if k == "leak":
+        return check_leak(ctx, case)
+    if k == "docutils-settings":
+        return check_docutils_settings_untouched(ctx, case)
     if k == "topmatter":
         return check_topmatter(ctx, case)
     if k == "kwargs":
@@ -856,6 +1003,29 @@ def search(ctx):
         if i < 2:
             ctx.sample(case)
         check_doc(ctx, case)
+    # run-time writers of the configuration (figure-md ...) in documents with and without front matter
+    from gen import c13_config as _G
+    from lib import common as _common
+    writers = sorted({(w["file"], w["func"], w["field"]) for w in _G.config_writes(_common.REPO)})
+    for w in writers:
+        if w not in WRITER_SNIPPETS:
+            ctx.tie_break("search-coverage", f"a place that writes to the parsing configuration at run time has no test document: {w}")
+    for w in writers:
+        if w not in WRITER_SNIPPETS:
+            continue
+        for fm in LEAK_FRONTMATTERS[: ctx.budget(3, 5, 5)]:
+            for conf_kw in ({"enable_extensions": ["deflist"]}, {"enable_extensions": ["deflist", "colon_fence"], "html_meta": {"g": "h"}})[: ctx.budget(1, 2, 2)]:
+                ctx.search_cases += 1
+                ctx.count("search:leak")
+                check_leak(ctx, {"kind": "leak", "frontmatter": fm, "snippet": WRITER_SNIPPETS[w], "conf": conf_kw})
+    for i in range(ctx.budget(20, 200, 200)):
+        ctx.search_cases += 1
+        ctx.count("search:docutils-settings")
+        fm = rng.choice(LEAK_FRONTMATTERS[:4])
+        check_docutils_settings_untouched(ctx, {"kind": "docutils-settings", "text": fm + "\n".join(rng.sample(SNIPPETS, 2)),
+                                                "settings": {"enable_extensions": ["deflist", "substitution"], "html_meta": {"g": "h"},
+                                                             "substitutions": {"a": "x"}, "url_schemes": {"http": None, "wiki": "https://w/{{path}}"},
+                                                             "disable_syntax": ["table"], "fence_as_directive": ["mermaid"]}})
     for f, v in [("sub_delimiters", ["[", "]"]), ("ref_domains", ["py"])][: ctx.budget(2, 2, 2)]:
         for body in (SNIPPETS[8] + "\n" + SNIPPETS[0], SNIPPETS[1])[: ctx.budget(1, 2, 2)]:
             ctx.search_cases += 1
